@@ -1,6 +1,7 @@
 package main
 
 import (
+	"go/token"
 	"fmt"
 	"go/ast"
 	"go/types"
@@ -177,6 +178,110 @@ func runC10(c *Ctx) {
 		}
 	})
 	c.Min("C10-R2", 25)
+
+	c.Rule("C10-R3", "canonical shape: insert and delete never build short->short chains, empty-key short nodes or single-child branches", func() {
+		storeOf := func(st *pstate, base, field string) string {
+			pre := "store:" + base + "." + field + "="
+			for l := range st.lits {
+				if strings.HasPrefix(l, pre) {
+					return l[len(pre):]
+				}
+			}
+			return ""
+		}
+		n := 0
+		for _, name := range []string{"insert", "delete"} {
+			fn := c.Fn("trie:(*Trie)." + name)
+			f := c.Facts(fn)
+			for _, rs := range f.AcceptingReturns(-1, false) {
+				if len(rs.Ret.Results) != 3 {
+					continue
+				}
+				r := f.tr.term(rs.State, rs.Ret.Results[1], 0)
+				L := rs.State.lits
+				switch {
+				case strings.HasPrefix(r, "new(shortNode)"):
+					n++
+					K, V := storeOf(rs.State, r, "Key"), storeOf(rs.State, r, "Val")
+					// (A) the value of the new short node is not itself a short node
+					whyA := ""
+					switch {
+					case strings.HasPrefix(V, "new(fullNode)"):
+						whyA = "fresh branch node"
+					case L["!"+V+".(shortNode)#1"]:
+						whyA = "type test excluded *shortNode"
+					case L["phi:pos == 16"] || L["16 == phi:pos"]:
+						whyA = "value slot of a branch node"
+					case strings.HasSuffix(V, ".(shortNode)#0.Val"):
+						whyA = "Val of an existing short node (inductive)"
+					case name == "insert" && strings.HasPrefix(V, "Trie#0.insert(node#0.(shortNode)#0.Val, ") && strings.HasSuffix(V, ")#1") && K == "node#0.(shortNode)#0.Key":
+						whyA = "replacement of an existing short node's child (inductive)"
+					case name == "insert" && V == "node#1" && L["node#0 == nil"]:
+						whyA = "value parameter (call sites checked below)"
+					default:
+						for l := range L {
+							if strings.HasPrefix(l, "!Trie#0.resolve("+V+", ") && strings.HasSuffix(l, ")#0.(shortNode)#1") {
+								whyA = "resolved child is not a *shortNode"
+							}
+						}
+					}
+					// (B) the key is not empty; (C) a merge concatenates the merged node's own key
+					whyB := ""
+					switch {
+					case K == "node#0.(shortNode)#0.Key":
+						whyB = "key of the existing node"
+					case strings.HasPrefix(K, "trie.concat(node#0.(shortNode)#0.Key, ") || strings.HasPrefix(K, "append([phi:pos], "):
+						whyB = "merge"
+					case K == "[phi:pos]":
+						whyB = "one nibble"
+					case strings.HasPrefix(K, "[]byte#1[:") && L[strings.TrimSuffix(strings.TrimPrefix(K, "[]byte#1[:"), "]")+" != 0"]:
+						whyB = "common prefix, non-empty"
+					case K == "[]byte#1" && L["len([]byte#1) != 0"]:
+						whyB = "remaining key, non-empty"
+					}
+					okC := true
+					if strings.HasSuffix(V, ".(shortNode)#0.Val") && !strings.HasPrefix(V, "node#0.") {
+						// compare SSA values (rendered terms are depth-elided): Val = X.Val and Key = f(..., X.Key) for the same X, with X.(*shortNode) ok
+						okC = false
+						rv := resolve(rs.State, rs.Ret.Results[1])
+						if mi, isMI := rv.(*ssa.MakeInterface); isMI {
+							rv = mi.X
+						}
+						if al, isAl := rv.(*ssa.Alloc); isAl {
+							kv, vv := allocFieldStore(fn, al, "Key"), allocFieldStore(fn, al, "Val")
+							if x := fieldLoadBase(vv, "Val"); x != nil && kv != nil && whyB == "merge" {
+								okC = usesFieldOf(kv, x, "Key", 0) && L[f.tr.term(rs.State, x, 0)[:len(f.tr.term(rs.State, x, 0))-2]+"#1"]
+							}
+						}
+					} else if whyB == "merge" {
+						okC = false
+					}
+					c.Ob("C10-R3", fmt.Sprintf("Trie.%s returns a short node whose value is not a short node, with a non-empty (correctly merged) key", name), c.Position(rs.Ret.Pos()),
+						whyA != "" && whyB != "" && okC, fmt.Sprintf("Key=%s Val=%s [%s; %s; merge-consistent=%v]", K, V, whyA, whyB, okC))
+				case strings.HasPrefix(r, "new(fullNode)"):
+					n++
+					_, ok := hasLit(rs.State, mustRe(`^trie\.prefixLen\(.*\) == 0$`))
+					c.Ob("C10-R3", "Trie."+name+" returns a bare branch node only when the common prefix is empty", c.Position(rs.Ret.Pos()), ok, strings.Join(guardLits(rs.State), "; "))
+				case name == "delete" && strings.HasSuffix(r, ".copy()"):
+					n++
+					ok := L["phi:pos < 0"] || L["-1 != phi:pos"] && !L["phi:pos >= 0"]
+					c.Ob("C10-R3", "Trie.delete keeps a branch node only if at least two children remain", c.Position(rs.Ret.Pos()), ok, strings.Join(guardLits(rs.State), "; "))
+				}
+			}
+		}
+		c.Ob("C10-R3", "short/branch construction sites found in insert and delete", "", n >= 9, fmt.Sprintf("%d returning path states", n))
+		// the value parameter of insert is a value node or the Val of an existing short node
+		ins := c.Fn("trie:(*Trie).insert")
+		for _, caller := range c.SrcFns {
+			for _, cs := range callSitesOf(caller, ins) {
+				a := cs.Common().Args[4]
+				t := c.termOf(caller, a)
+				ok := t == "node#1" && caller == ins || strings.HasSuffix(t, ".(shortNode)#0.Val") || isNamedType(a, "valueNode")
+				c.Ob("C10-R3", shortFn(caller)+": inserted value is a value node, the value parameter, or the Val of an existing short node", c.Position(cs.Pos()), ok, "value "+t)
+			}
+		}
+	})
+	c.Min("C10-R3", 12)
 
 	c.Rule("C10-R4", "embedding threshold and codec agreement", func() {
 		st := c.Fn("trie:(*hasher).store")
@@ -507,4 +612,72 @@ func c10Base(v ssa.Value, depth int) string {
 		return c10Base(x.X, depth+1)
 	}
 	return fmt.Sprintf("%T", v)
+}
+
+// isNamedType: v is (a conversion to / an interface made from) the named type.
+func isNamedType(v ssa.Value, name string) bool {
+	for i := 0; i < 4; i++ {
+		if n, ok := v.Type().(*types.Named); ok && n.Obj().Name() == name {
+			return true
+		}
+		switch x := v.(type) {
+		case *ssa.MakeInterface:
+			v = x.X
+		case *ssa.ChangeType:
+			v = x.X
+		default:
+			return false
+		}
+	}
+	return false
+}
+
+// allocFieldStore: the value stored into field `name` of the allocation (single store expected).
+func allocFieldStore(fn *ssa.Function, al *ssa.Alloc, name string) ssa.Value {
+	var out ssa.Value
+	for _, b := range fn.Blocks {
+		for _, ins := range b.Instrs {
+			if st, ok := ins.(*ssa.Store); ok {
+				if fa, ok := st.Addr.(*ssa.FieldAddr); ok && fa.X == al && fieldName(fa) == name {
+					out = st.Val
+				}
+			}
+		}
+	}
+	return out
+}
+
+// fieldLoadBase: v is a load of X.<name>; returns X.
+func fieldLoadBase(v ssa.Value, name string) ssa.Value {
+	if u, ok := v.(*ssa.UnOp); ok && u.Op == token.MUL {
+		if fa, ok := u.X.(*ssa.FieldAddr); ok && fieldName(fa) == name {
+			return fa.X
+		}
+	}
+	return nil
+}
+
+// usesFieldOf: v is computed (through call arguments / slices) from a load of x.<name>.
+func usesFieldOf(v, x ssa.Value, name string, depth int) bool {
+	if depth > 4 || v == nil {
+		return false
+	}
+	if b := fieldLoadBase(v, name); b != nil && b == x {
+		return true
+	}
+	switch y := v.(type) {
+	case *ssa.Call:
+		for _, a := range y.Call.Args {
+			if usesFieldOf(a, x, name, depth+1) {
+				return true
+			}
+		}
+	case *ssa.Slice:
+		if y.Low == nil && y.High == nil { // only the whole slice counts: a sub-slice drops nibbles
+			return usesFieldOf(y.X, x, name, depth+1)
+		}
+	case *ssa.ChangeType:
+		return usesFieldOf(y.X, x, name, depth+1)
+	}
+	return false
 }
